@@ -1,4 +1,4 @@
-import Cicada.Lemmas.TermReport
+import Cicada.Lemmas.TermWait
 /-!
 # C07 — the terminal belongs to the foreground job while it runs, else to the shell
 
@@ -16,6 +16,7 @@ Proved for every reachable state (every interleaving):
 * `C07_one_group`    — every stage of every pipeline is in the group led by its first stage from the parent's `setpgid` on
                        (this is what `fix:` 35a9330 established; `C07_before_fix_race` is the interleaving that broke it);
 * `C07_report_once`  — no job incarnation is announced as finished twice, and an announced one is absent from the table;
+* `C07_wait_complete_partial` — when the wait for a single process ends, that process is stopped or gone (guard: one process);
 * `C07_signal_whole`, `C07_ctrlZ_stops_pipeline` — a signal to the job's group (Ctrl-Z, Ctrl-C, the SIGCONT of `fg` / `bg`)
   reaches every member of the pipeline.
 Findings (model = implementation ≠ reference; classes in known_findings.json): the foreground wait counts one member
@@ -117,6 +118,81 @@ theorem C07_ctrlZ_stops_pipeline {s s' : State} (h : Reachable cfg s) (w : Wait)
   · rw [ht]; exact C07_signal_whole h (by intro l hl; rw [hm] at hl; simp at hl) w.gid .tstp p hp hf
   · simp [sigProc, hr]
   · simp [sigProc, hr]
+
+/-- **the wait clause on its guard domain** (`w.pids.length = 1`: the shell waits for a single process — every
+one-stage foreground command, every `fg` of a one-process job): when `wait_fg_job` stops waiting, that process is
+stopped or gone.  For longer pipelines the clause fails: `C07_wait_returns_early`. -/
+theorem C07_wait_complete_partial {s s' : State} (h : Reachable cfg s) (w : Wait) (hm : s.mode = .waiting w)
+    (hguard : w.pids.length = 1) (pid : Pid) (hs : Term.step cfg s (.waitGet pid) = some s')
+    (hret : ∀ w', s'.mode ≠ .waiting w') : ∀ q ∈ s'.procs, q.pid ∈ w.pids → q.st ≠ .running := by
+  have hw := waitInv_reachable h
+  have hu := (procInv_reachable (c := cfg) rfl h).uniq
+  have h0 : w.waited = 0 := by have := hw.counter w hm; omega
+  simp only [Term.step, hm] at hs
+  unfold stepWaitGet at hs
+  split at hs
+  · simp at hs
+  · rename_i p hfp
+    obtain ⟨hpm, hpp⟩ := mem_of_findProc hfp
+    split at hs
+    · simp at hs
+    · rename_i e he
+      obtain ⟨hepid, hest⟩ := hw.notes p hpm e he
+      simp only [Option.some.injEq] at hs
+      subst hs
+      -- the wait is over: the loop did not go round and the counter reached 1
+      have hleft : ((waitEv s.sh w e).2.2.2 = false ∧ (waitEv s.sh w e).2.2.1 ≥ w.pids.length) := by
+        by_cases hc : (!(waitEv s.sh w e).2.2.2 && decide ((waitEv s.sh w e).2.2.1 ≥ w.pids.length)) = true
+        · simpa using hc
+        · exfalso
+          refine hret { w with waited := (waitEv s.sh w e).2.2.1 } ?_
+          simp only
+          rw [if_neg hc]
+      -- so the notification was a stop or an end of a process the shell waits for
+      have hfg : w.pids.contains e.pid = true ∧ ∀ x, e ≠ .continued x := by
+        obtain ⟨h1, h2⟩ := hleft
+        rw [hguard] at h2
+        cases e with
+        | continued x => simp [waitEv] at h1
+        | exited x c =>
+          refine ⟨?_, by intro y hy; cases hy⟩
+          by_cases hc : w.pids.contains (Ev.exited x c).pid = true
+          · exact hc
+          · simp only [waitEv, hc] at h2; simp [h0] at h2
+        | killed x c =>
+          refine ⟨?_, by intro y hy; cases hy⟩
+          by_cases hc : w.pids.contains (Ev.killed x c).pid = true
+          · exact hc
+          · simp only [waitEv, hc] at h2; simp [h0] at h2
+        | stopped x c =>
+          refine ⟨?_, by intro y hy; cases hy⟩
+          by_cases hc : w.pids.contains (Ev.stopped x c).pid = true
+          · exact hc
+          · simp only [waitEv, hc] at h2; simp [h0] at h2
+      intro q hq hqw
+      simp only at hq
+      rw [updProc_eq, List.mem_map] at hq
+      obtain ⟨q0, hq0, rfl⟩ := hq
+      -- the one process waited for is the one whose notification was taken
+      have hone : ∀ a ∈ w.pids, ∀ b ∈ w.pids, a = b := by
+        intro a ha b hb
+        match hwp : w.pids, hguard with
+        | [x], _ => rw [hwp] at ha hb; simp at ha hb; rw [ha, hb]
+      have hepid' : e.pid = pid := by rw [hepid, hpp]
+      have hpidw : pid ∈ w.pids := by
+        have := hfg.1; rw [hepid'] at this; simpa using this
+      by_cases hqp : q0.pid = pid
+      · have : q0 = p := hu q0 hq0 p hpm (by rw [hqp, hpp])
+        subst this
+        simp only [hqp, ↓reduceIte, consume]
+        cases e with
+        | continued x => exact absurd rfl (hfg.2 x)
+        | exited x c => simp only at hest; simp [hest]
+        | killed x c => simp only at hest; simp [hest]
+        | stopped x c => simp only at hest; simp [hest]
+      · exfalso
+        simp only [hqp, ↓reduceIte] at hqw
+        exact hqp (hone _ hqw _ hpidw)
 
 /-! ### the interleaving the repaired code excludes -/
 
